@@ -97,9 +97,15 @@ func c10Table(c *sim.Ctx, low *sdb.Database, w *world.World, t *sq.Table) {
 	for _, col := range sc.Columns {
 		names = append(names, col.Column)
 	}
-	want := t.ColNames()
+	want := t.DeclaredColNames()
 	if !strsEqFold(names, want) {
 		fail("columns", fmt.Sprintf("columns %v, SQLite: %v", names, want), nil)
+		return
+	}
+	if t.HasVirtualGenerated() {
+		// sqlittle's schema has no notion of a column that is not stored in the row: listing
+		// a VIRTUAL generated column among the stored ones describes every later column wrongly
+		fail("generated-column-as-stored", fmt.Sprintf("accepted a definition with a VIRTUAL generated column and lists it as an ordinary column: %v", names), nil)
 		return
 	}
 	// WITHOUT ROWID
